@@ -3,7 +3,7 @@
    image of the momentum-closing direction, on the signal's side, and the property's momentum clause fails.
    These lemmas are about the faithful (translated) model; they are not part of any property's obligations. *)
 From Coq Require Import Reals Lra Lia ZArith Bool.
-From SpdVerif Require Import Base.Rx Base.Vec3 Gen.Idler Model.Idler Proofs.C03_base Proofs.C03_idler Proofs.C03_all.
+From SpdVerif Require Import Base.Rx Base.Vec3 Gen.Idler Model.Idler Proofs.C03_base Proofs.C03_idler Proofs.C03_sign Proofs.C03_all.
 Local Open Scope R_scope.
 
 (* every negative angle fails: co-propagating setup, closing vector forward, non-zero signal index *)
@@ -17,7 +17,7 @@ Proof.
   intros Hlp Hls Hpp Hth Hn Hz Hs.
   assert (Hth' : - (PI / 2) < ths < PI / 2) by (pose proof PI_RGT_0; lra).
   destruct (some_inv index pm spol ppol phis ths ls lp ws wp pp Hlp Hls false i Hs) as [Hlt ->].
-  pose proof (idler_mirror_negative index pm spol ppol phis ths ls lp ws wp pp Hls Hlp (range_pi ths Hth') Hpp false
+  pose proof (idler_mirror_negative index pm spol ppol phis ths ls lp ws wp pp false Hls Hlp (range_pi ths Hth') Hpp
                 (cos_pos_of_range ths Hth') eq_refl (proj2 Hth) Hz) as Hm.
   cbv zeta in Hm.
   pose proof (Kq_pos ths ls Hls (range_pi ths Hth')) as HK.
